@@ -90,16 +90,19 @@ func (s *sst) Imports() []SharedSymbolTable {
 }
 
 func (s *sst) Symbols() []string {
+	verifYield("sst.Symbols", s)
 	syms := make([]string, s.maxID)
 	copy(syms, s.symbols)
 	return syms
 }
 
 func (s *sst) MaxID() uint64 {
+	verifYield("sst.MaxID", s)
 	return s.maxID
 }
 
 func (s *sst) Adjust(maxID uint64) SharedSymbolTable {
+	verifYield("sst.Adjust", s)
 	if maxID == s.maxID {
 		// Nothing needs to change.
 		return s
@@ -144,11 +147,13 @@ func (s *sst) Find(sym string) *SymbolToken {
 }
 
 func (s *sst) FindByName(sym string) (uint64, bool) {
+	verifYield("sst.FindByName", s)
 	id, ok := s.index[sym]
 	return id, ok
 }
 
 func (s *sst) FindByID(id uint64) (string, bool) {
+	verifYield("sst.FindByID", s)
 	if id <= 0 || id > uint64(len(s.symbols)) {
 		return "", false
 	}
@@ -156,6 +161,7 @@ func (s *sst) FindByID(id uint64) (string, bool) {
 }
 
 func (s *sst) WriteTo(w Writer) error {
+	verifYield("sst.WriteTo", s)
 	ionSharedSymbolTableText := "$ion_shared_symbol_table"
 	if err := w.Annotation(SymbolToken{Text: &ionSharedSymbolTableText, LocalSID: 9}); err != nil {
 		return err
